@@ -72,6 +72,9 @@ type procScenario struct {
 	// Once: every unit is handed over exactly once, as the engine does (no retry when the
 	// processor answers "processor channel full")
 	Once bool `json:"once,omitempty"`
+	// Plain (replays): run on the Processor exactly as the tree has it, even when the other
+	// scenarios need the wiring overlay (shows the two never-set fields)
+	Plain bool `json:"plain,omitempty"`
 }
 
 type procEvent struct {
@@ -1186,6 +1189,12 @@ func procDeliverOnce(h *hctx, mk func(n, local, pub, msgLen int, steps []procSte
 		sc.Once = true
 		scs = append(scs, sc)
 	}
+	evalOnce(h, scs)
+}
+
+// evalOnce: the scenarios (Once mode: every unit handed over exactly once) on fresh processors;
+// how often is the FIRST unit of the new message key dropped?
+func evalOnce(h *hctx, scs []*procScenario) {
 	runs := runProcChildren(scs)
 	firstDropped, firstTaken := 0, 0
 	var example *procScenario
